@@ -1,24 +1,26 @@
 #!/bin/bash
 # Regression test for the soundness holes found by the red team (tools/rs2coq/redteam/*.diff):
 # each diff changes the run-time behaviour of the Rust source.  Applied to a scratch copy of /repo,
-# the translator must NOT produce eight outputs byte-identical to /verif/coq/gen: something must be
+# the translator must NOT produce ten outputs byte-identical to /verif/coq/gen: something must be
 # OMITTED, or the exit status must be 2, or the text must change.  For the holes whose text did
 # change but whose proofs still passed (13 14 24 25 26, L1, L2) an OMITTED / exit 2 is required.
 # The unmodified source must give byte-identical outputs and `rs2coq: omitted: none`.
-#   redteam_check.sh [DIFF_DIR]      (default /verif/tools/rs2coq/redteam)
+#   redteam_check.sh [DIFF_DIR ...]  (default /verif/tools/rs2coq/redteam /verif/tools/rs2coq/redteam2)
+# Round 2 (redteam2): OMITTED / exit 2 is also required for its holes 09 12 13 14 17 18.
 set -u
 HERE="$(cd "$(dirname "$0")" && pwd)"
-DIFFS="${1:-/verif/tools/rs2coq/redteam}"
+if [ $# -gt 0 ]; then DIRS="$*"; else DIRS="/verif/tools/rs2coq/redteam /verif/tools/rs2coq/redteam2"; fi
 GEN=/verif/coq/gen
 BIN="${RS2COQ_BIN:-/verif/.cache/rs2coq-target/release/rs2coq}"
 W="${TMPDIR:-/var/tmp}/rs2coq_redteam"
-FILES="Src SrcBigint SrcSlow SrcParse SrcFrontSimple SrcFrontFuzz SrcFrontTest SrcFrontEtc"
+FILES="Src SrcBigint SrcSlow SrcParse SrcFrontSimple SrcFrontFuzz SrcFrontTest SrcFrontEtc SrcStackVec SrcHeapVec"
 rm -rf "$W"; mkdir -p "$W"
 fails=0
 
 copy_repo() {  # $1 = destination
   mkdir -p "$1/examples" "$1/fuzz/fuzz_targets" "$1/tests" "$1/etc/correctness/test-parse-golang"
   cp -r /repo/src "$1/src"
+  cp /repo/Cargo.toml "$1/Cargo.toml"
   cp /repo/examples/simple.rs "$1/examples/"
   cp /repo/fuzz/fuzz_targets/parse.rs "$1/fuzz/fuzz_targets/"
   cp /repo/tests/integration_tests.rs "$1/tests/"
@@ -38,21 +40,24 @@ run() {  # $1 = work dir; sets rc, identical, omitted
 copy_repo "$W/base/repo"
 run "$W/base"
 if [ $rc -eq 0 ] && [ "$identical" = yes ] && [ "$omitted" = none ]; then
-  echo "[baseline] exit 0, eight outputs byte-identical to $GEN, omitted: none"
+  echo "[baseline] exit 0, ten outputs byte-identical to $GEN, omitted: none"
 else
   echo "[baseline] FAILED: exit $rc, identical=$identical, omitted: $omitted"; fails=$((fails+1))
 fi
 
 # ---- the holes
+for DIFFS in $DIRS; do
+round="$(basename "$DIFFS")"
 for d in "$DIFFS"/*.diff; do
-  n="$(basename "$d" .diff)"
+  n="$round-$(basename "$d" .diff)"
   copy_repo "$W/$n/repo"
   if ! ( cd "$W/$n/repo" && timeout 60 patch -p1 -s < "$d" ) > "$W/$n/patch.log" 2>&1; then
     echo "[$n] the diff does not apply"; fails=$((fails+1)); continue
   fi
   run "$W/$n"
   strict=no
-  case "$n" in hole13|hole14|hole24|hole25|hole26|latent_*) strict=yes;; esac
+  case "$n" in redteam-hole13|redteam-hole14|redteam-hole24|redteam-hole25|redteam-hole26|redteam-latent_*) strict=yes;; esac
+  case "$n" in redteam2-*) strict=yes;; esac
   if [ $rc -eq 2 ]; then
     how="exit 2: $(grep -m1 'ERROR' "$W/$n/log" | cut -c1-170)"; ok=yes
   elif [ $rc -ne 0 ]; then
@@ -65,6 +70,7 @@ for d in "$DIFFS"/*.diff; do
     how="NOT DETECTED (outputs byte-identical)"; ok=no
   fi
   if [ $ok = yes ]; then echo "[$n] detected - $how"; else echo "[$n] FAILED - $how"; fails=$((fails+1)); fi
+done
 done
 if [ $fails -eq 0 ]; then echo "redteam_check: PASS"; else echo "redteam_check: $fails FAILURE(S)"; fi
 exit $fails
